@@ -79,7 +79,10 @@ def run(ck):
   U.run_batch(ck, BE, corpus, stats, cfg['ncycles'] + 2, cfg['nstores'])
   # ---- labelled streams of the known findings
   fd = [dict(w) for w in K.WITNESSES if BE in w['backends']]      # canonical witnesses first, then randomised instances
-  for fid, (bes, _) in G.FINDING_STREAMS.items():
+  # (pending streams run once their finding is registered for this property in known_findings.json)
+  streams_ = dict(G.FINDING_STREAMS)
+  streams_.update({f: v for f, v in G.PENDING_STREAMS.items() if G.registered(f, PID)})
+  for fid, (bes, _) in streams_.items():
     if BE not in bes: continue
     for k in range(cfg['finding_each']):
       fd.append(G.gen_finding(random.Random(rng.getrandbits(64)), BE, fid))
